@@ -29,7 +29,8 @@ where
     };
     loop {
         let old_x_curr = x_curr;
-        x_curr = (lower_bound + upper_bound) / 2_f64;
+        // Halve before adding: the sum of two huge bounds overflows to infinity
+        x_curr = lower_bound / 2_f64 + upper_bound / 2_f64;
         // The first midpoint has no previous midpoint to be compared with
         if iter > 0 && x_curr != 0 as f64 {
             approx_err = {
